@@ -233,6 +233,9 @@ func (t *Tokenizer) tokenizeBuffer(buf []byte, last bool) {
 					t.addToken(string(t.tmp))
 				}
 			}
+			if !t.exkey {
+				t.newError(off, "expected a value")
+			}
 			t.starts = t.starts[0:depth]
 			t.handler.ObjectEnd()
 			t.exkey = 0 < len(t.starts) && t.starts[len(t.starts)-1] == objectStart
